@@ -357,7 +357,7 @@ Section ProtoRec.
     destruct (get_singleton s st2 n false) as [[st3 [e|]]|k3 st3] eqn:EG.
     - pose proof (get_singleton_false_state _ _ _ _ EG) as ->.
       destruct w as [wv|].
-      + destruct (stale_dependents vt st2 n).
+      + destruct (stale_dependents vt st2 n _).
         * apply (good_ok_retag vt pj2 pj2 _ _ _ (st2, Some e) (st2, wv) eq_refl H3).
         * apply (good_ok_then_fail pj2 pj2 _ _ _ (st2, Some e) (FErr EStale) st2 eq_refl H3).
       + apply (good_ok_retag vt pj2 pj2 _ _ _ (st2, Some e) (st2, e) eq_refl H3).
